@@ -453,6 +453,53 @@ func (C10) Judge(c *Ctx, sc *Scenario) []Violation {
 		}
 	}
 
+	// O10.4 in eval-all mode with the operators at top level: one result per document, in order
+	if raw == "[.id, @DI@, @FI@, filename]" && outFmt == "json0" && combined.Exit == 0 && len(layout) > 0 {
+		allHaveID := true
+		for _, d := range layout {
+			if d.ID == "" {
+				allHaveID = false
+			}
+		}
+		if allHaveID {
+			for _, probe := range []string{"filename", "fi", "di"} {
+				ea := sc.Clone()
+				ea.Plan.Readers = nil
+				var argv []string
+				for _, a := range sc.Argv {
+					if a == sc.MetaString("expr") {
+						a = probe
+					}
+					argv = append(argv, a)
+				}
+				ea.Argv = append([]string{"ea"}, argv...)
+				o := c.Exec(ea)
+				if o.Exit != 0 {
+					continue
+				}
+				var want []string
+				for _, d := range layout {
+					switch probe {
+					case "filename":
+						want = append(want, jsonStr(d.Name))
+					case "fi":
+						want = append(want, fmt.Sprint(d.FileIndex))
+					case "di":
+						want = append(want, fmt.Sprint(d.DocIndex))
+					}
+				}
+				got := strings.Split(strings.TrimSpace(string(o.Stdout)), "\n")
+				if strings.Join(got, ",") != strings.Join(want, ",") {
+					add("O10.4", "provenance mode=ea op="+probe, layout[0].Class, fmt.Sprintf("eval-all `%s` reports %v for documents whose true values are %v", probe, got, want))
+					break
+				}
+			}
+			if !c.Quiet {
+				c.Count("probe.provenance_top_level_eval_all")
+			}
+		}
+	}
+
 	// O10.6 eval-all agrees with eval on a single-document input
 	if sc.MetaBool("total") && len(layout) == 1 && len(files) == 1 && combined.Exit == 0 && !strings.HasPrefix(layout[0].Class, "comment-only") && layout[0].Class != "blank" {
 		ea := sc.Clone()
